@@ -18,6 +18,9 @@ EstimatorPairs  == {"Tilt.quaternion", "Tilt.rotmat", "Tilt.angles", "Tilt.acc-o
                     "OLEQ.NED", "OLEQ.ENU", "FAMC", "FQA", "FQA.acc-only", "AQUA.acc-mag", "AQUA.acc-only"}
 TwinPairs == ConversionPairs \cup MethodPairs \cup MetricPairs \cup EstimatorPairs
 
+(* the form the caller's data are in: float arrays of unit-scale values, integer-dtype arrays (raw sensor counts,
+   integer-valued quaternions), or non-normalised (scaled) quaternions / measurements *)
+Forms == {"float", "int-dtype", "scaled"}
 RowClasses == {"generic-a", "generic-b", "half-turn", "near-identity", "identity", "near-half-turn"}
 Ns == {1, 2, 5}
 
